@@ -46,6 +46,25 @@ MUTANTS = [
       [(RNT, "static const Jacobian Jr = Jacobian::Identity();", "const static Jacobian Jr = Jacobian::Identity();", 1)]),
     N("effect-drop-static", ["C14", "C09"],
       [(RNT, "static const Jacobian Jr = Jacobian::Identity();", "const Jacobian Jr = Jacobian::Identity();", 1)]),
+    # ---------------- views (C10) ----------------------------------------------------------------------
+    B("view-map-overrides-operation", ["C10"],
+      [("include/manif/impl/se3/SE3_map.h", "  Map(Scalar* coeffs) : data_(coeffs) { }\n", "  Map(Scalar* coeffs) : data_(coeffs) { }\n  Scalar x() const { return data_(1); }\n", 1)],
+      ["R-SURFACE", "x"]),
+    B("view-asSO3-offset-out-of-buffer", ["C10"],
+      [(SE3B, "    return Eigen::Map<SO3<Scalar>>(coeffs().data()+3);", "    return Eigen::Map<SO3<Scalar>>(coeffs().data()+4);", 1)],
+      ["R-PTR", "asSO3"]),
+    B("view-assign-renormalises", ["C10"],
+      [("include/manif/impl/macro.h", "  Map& operator =(const manif::LieGroupBase<_DerivedOther>& o) { coeffs() = o.coeffs(); return *this; }\\\n  template <typename _EigenDerived>\\\n  Map& operator =(const Eigen::MatrixBase<_EigenDerived>& o) { coeffs() = o; return *this; }\\\n  Map& operator=(Map&& o)",
+        "  Map& operator =(const manif::LieGroupBase<_DerivedOther>& o) { coeffs() = o.coeffs(); coeffs() *= Scalar(1) / o.coeffs().norm(); return *this; }\\\n  template <typename _EigenDerived>\\\n  Map& operator =(const Eigen::MatrixBase<_EigenDerived>& o) { coeffs() = o; return *this; }\\\n  Map& operator=(Map&& o)", 1)],
+      ["R-ASSIGN"]),
+    B("view-const-map-traits-base", ["C19"],
+      [("include/manif/impl/rn/RnTangent_map.h", "  using Base = RnTangentBase<Eigen::Map<const RnTangent<Scalar, _N>, 0>>;", "  using Base = RnTangentBase<const Eigen::Map<RnTangent<Scalar, _N>, 0>>;", 1)],
+      ["bracket"]),
+    B("view-const-access-gives-mutable-view", ["C10"],
+      [(SE23B, "  Eigen::Map<const SO3<Scalar>> asSO3() const\n  {\n    return Eigen::Map<const SO3<Scalar>>(coeffs().data()+3);", "  Eigen::Map<SO3<Scalar>> asSO3() const\n  {\n    return Eigen::Map<SO3<Scalar>>(const_cast<Scalar*>(coeffs().data())+3);", 1)],
+      ["R-PTR.const"]),
+    N("view-raw-pointer-via-address-of", ["C10", "C11"],
+      [(SE3B, "    return Eigen::Map<const SO3<Scalar>>(coeffs().data()+3);", "    return Eigen::Map<const SO3<Scalar>>(coeffs().template tail<4>().data());", 1)]),
     # ---------------- Bundle (C11) -------------------------------------------------------------------
     B("bundle-act-jacobian-offset-kind", ["C11"],
       [(BB, "        std::get<_Idx>(internal::traits<_Derived>::DimIdx),\n        std::get<_Idx>(internal::traits<_Derived>::DoFIdx)\n      ) :", "        std::get<_Idx>(internal::traits<_Derived>::DimIdx),\n        std::get<_Idx>(internal::traits<_Derived>::DimIdx)\n      ) :", 1)],
